@@ -14,7 +14,7 @@ from common import run_driver, parallel, Report, tier, seed, fs, canon
 QT = 10000
 TOL = Fraction(1, 10 ** 6)
 LIMITS = [0, 1, 1000, 1000000, None]
-GAPS = [None, '0', '1e-6', '0.5', '10', '-1', 'NaN', 'inf', '-0.0']
+GAPS = [None, '0', '1e-6', '0.5', '1', '10', '-1', 'NaN', 'inf', '-0.0']
 INVALID = ('-1', 'NaN', 'inf')
 
 
@@ -30,7 +30,12 @@ def option_sets(idx, full):
         out.append({'gap': None, 'limit_ns': l})
     for g in GAPS[1:]:
         out.append({'gap': g, 'limit_ns': None})
-    out.append({'gap': GAPS[1 + idx % 4], 'limit_ns': LIMITS[idx % 4]})
+    # three rotating (limit, gap) pairs: over 40 consecutive models every pair of the grid occurs
+    valid = [g for g in GAPS[1:] if g not in INVALID]
+    lims = [l for l in LIMITS if l is not None]
+    for k in range(3):
+        j = idx * 3 + k
+        out.append({'gap': valid[j % len(valid)], 'limit_ns': lims[(j // len(valid)) % len(lims)]})
     return out
 
 
